@@ -28,4 +28,7 @@ mod store;
 mod utils;
 
 pub use engine::RocksOpts;
+
+#[cfg(feature = "verif")]
+pub use engine::verif_hooks;
 pub use server::{default_db_opts, open_rocks_store};
